@@ -505,7 +505,7 @@ impl Blob {
 impl Blob {
 
 //@ extract blob.rs impl /^Blob$/ fn forget_replaced_file_states
-//@ props C18 C07 C01 C05
+//@ props C18 C07 C01 C05 C10
 //@ rewrite 1 /for \(i, info\) in self\.file_infos\.iter_mut\(\)\.enumerate\(\)/ => for i in 0..self.file_infos.len()
 //@ insert after 1/1 /for \(i, info\) in self\.file_infos\.iter_mut\(\)\.enumerate\(\)\s*\{/ => let info = &mut self.file_infos[i];
 //@ rewrite 1 /match resolutions\.get\(i\)/ => match vec_get(resolutions, i)
@@ -513,7 +513,7 @@ impl Blob {
         requires old(self).all_rem_ok(),
         ensures final(self).paths() =~= old(self).paths(), final(self).file_infos@.len() == old(self).file_infos@.len(),
             forall|k: int| 0 <= k < old(self).file_infos@.len() ==> (#[trigger] final(self).file_infos@[k]).path@ == old(self).file_infos@[k].path@,
-            // what is remembered afterwards is still valid (REM_OK), and for a replaced file it is the empty state, never the old one   //# O-D-forget-replaced [C18,C07]
+            // what is remembered afterwards is still valid (REM_OK), and for a replaced file it is the empty state, never the old one   //# O-D-forget-replaced [C18,C07,C10]
             final(self).all_rem_ok(),
             forall|k: int| 0 <= k < old(self).file_infos@.len() ==> (
                 ((k < resolutions@.len() && resolutions@[k] is AlreadyCorrect) ==> (#[trigger] final(self).file_infos@[k]).file_state == old(self).file_infos@[k].file_state)
@@ -832,7 +832,7 @@ spec fn path_strs(paths: Seq<Seq<char>>, idx: Seq<usize>) -> Seq<Seq<char>> { Se
         ran(*old(w), *final(w), to_script(strs(command@))),                                             //# O-D-rebuild-one-exec [C02,C20]
         inv(*final(w)),                                                                                 //# O-D-rebuild-inv [C07]
         res matches Ok(r) ==> r.work_option matches WorkOption::CommandExecuted(o) && o.code == Some(0i32),            //# O-D-rebuild-option [C20,C04]
-        res matches Ok(r) ==> r.blob.paths() =~= blob.paths() && r.blob.all_rem_ok(),                                  //# O-D-rebuild-blob-valid [C18,C07]
+        res matches Ok(r) ==> r.blob.paths() =~= blob.paths() && r.blob.all_rem_ok(),                                  //# O-D-rebuild-blob-valid [C18,C07,C10]
         res matches Ok(r) ==> true_hashes(*final(w), blob, r.file_state_vec),                                          //# O-D-rebuild-true-hash [C01,C03]
         res matches Ok(r) ==> r.rule_history matches Some(h) && hist_wf(h.map(), blob.file_infos@.len() as int)        //# O-D-rebuild-history [C01,C17]
                 && h.map().contains_key(sources_ticket) && h.map()[sources_ticket].tickets() =~= r.file_state_vec.tickets()
@@ -945,7 +945,7 @@ spec fn hrn_trace(a: World, b: World, script: Seq<Seq<char>>, paths: Seq<Seq<cha
         // at most one execution; ruler's own changes lose nothing (C08) and touch only this rule's targets and the cache (C09)
         hrn_trace(*old(w), *final(w), to_script(strs(rule_ext.command@)), info.blob.paths()),           //# O-D-hrn-trace [C02,C08,C09]
         res matches Ok(r) ==> true_hashes(*final(w), info.blob, r.file_state_vec),                     //# O-D-hrn-true-hash [C01,C03]
-        res matches Ok(r) ==> r.blob.paths() =~= info.blob.paths() && r.blob.all_rem_ok(),             //# O-D-hrn-blob-valid [C18,C07]
+        res matches Ok(r) ==> r.blob.paths() =~= info.blob.paths() && r.blob.all_rem_ok(),             //# O-D-hrn-blob-valid [C18,C07,C10]
         res matches Ok(r) ==> !(r.work_option is SourceOnly),
         // 'Built' exactly when the command ran (C20); a command that ran exited 0 (C04)
         res matches Ok(r) ==> ((r.work_option is CommandExecuted) <==> final(w).execs != old(w).execs),                 //# O-D-option-built [C20]
